@@ -75,12 +75,10 @@ def legacy_stage(ctx, sd, rnd, mc):
             s["req"] = ["exact", "exact", "hexoff", "exact", "len"][(s["id"] + rep + ctx.seed) % 5]
             scns.append(s)
     if not ctx.thorough:
-        # quick tier: every short scenario, a seeded sample of the others (HTTP round trips are slow)
-        short = [s for s in scns if len(s["steps"]) <= 2]
-        rest = [s for s in scns if len(s["steps"]) > 2]
-        rnd.shuffle(rest)
-        scns = short + rest[:max(0, 1600 - len(short))]
-    for i in range(4000 if ctx.thorough else 300):
+        # quick tier: a seeded sample (HTTP round trips are slow); the thorough tier runs all, three times
+        rnd.shuffle(scns)
+        scns = scns[:1000]
+    for i in range(4000 if ctx.thorough else 250):
         s = random_scenario(rnd, base + 500000 + i, ctx.seed)
         s["path"] = "legacy"
         s["steps"] = [st for st in s["steps"] if st["k"] != "cancel"]     # no early cancels over HTTP (see driver)
@@ -128,7 +126,7 @@ def run(ctx):
             # no manifest sent can match
             s["req"] = ["exact", "hints", "exact", "hexoff", "exact", "len", "hints"][(s["id"] + rep + ctx.seed) % 7]
             scns.append(s)
-    nrand = 8000 if ctx.thorough else 1500
+    nrand = 8000 if ctx.thorough else 800
     base = 10 ** 6
     for i in range(nrand):
         scns.append(random_scenario(rnd, base + i, ctx.seed))
